@@ -1,4 +1,5 @@
 mod c01;
+mod c01_builders;
 mod c02;
 mod c03;
 mod c09;
